@@ -44,12 +44,14 @@ type c13Topo struct {
 	listener *exec.Cmd
 }
 
-func (tp *c13Topo) addr(link, side int) string { return fmt.Sprintf("10.%d.%d.%d", 100+tp.ID, link, side) }
-func (tp *c13Topo) routerAddr(k int) string    { return tp.addr(k-1, 2) }
-func (tp *c13Topo) destAddr() string           { return tp.addr(tp.N, 2) }
-func (tp *c13Topo) clientAddr() string         { return tp.addr(0, 1) }
-func (tp *c13Topo) client() string             { return tp.ns[0] }
-func (tp *c13Topo) dest() string               { return tp.ns[tp.N+1] }
+func (tp *c13Topo) addr(link, side int) string {
+	return fmt.Sprintf("10.%d.%d.%d", 100+tp.ID, link, side)
+}
+func (tp *c13Topo) routerAddr(k int) string { return tp.addr(k-1, 2) }
+func (tp *c13Topo) destAddr() string        { return tp.addr(tp.N, 2) }
+func (tp *c13Topo) clientAddr() string      { return tp.addr(0, 1) }
+func (tp *c13Topo) client() string          { return tp.ns[0] }
+func (tp *c13Topo) dest() string            { return tp.ns[tp.N+1] }
 
 func (tp *c13Topo) describe() map[string]any {
 	rs := []map[string]any{}
@@ -58,7 +60,7 @@ func (tp *c13Topo) describe() map[string]any {
 	}
 	return map[string]any{"routers": rs, "dest": tp.destAddr(), "port": c13Port, "port_open": tp.Open, "tcp_sack": tp.Sack,
 		"client": tp.clientAddr(),
-		"how": "chain of network namespaces, veth links 10.x.k.0/24, ip_forward=1, rp_filter=0, icmp_ratelimit=0; silent router = `ip rule add iif lo to <client subnet> blackhole`; closed port = no listener; tcp_sack=0 via sysctl in the destination namespace"}
+		"how":    "chain of network namespaces, veth links 10.x.k.0/24, ip_forward=1, rp_filter=0, icmp_ratelimit=0; silent router = `ip rule add iif lo to <client subnet> blackhole`; closed port = no listener; tcp_sack=0 via sysctl in the destination namespace"}
 }
 
 func c13IPHex(s string) string {
